@@ -1,9 +1,14 @@
 package http3
 
 import (
+	"bytes"
 	"context"
+	"errors"
 	"fmt"
+	"io"
+	"net/http"
 	"testing"
+	"testing/synctest"
 
 	"golang.org/x/net/quic"
 )
@@ -61,3 +66,190 @@ func vpVarint(b []byte, v uint64, minLen int) []byte {
 		return append(b, 0xc0|byte(v>>56), byte(v>>48), byte(v>>40), byte(v>>32), byte(v>>24), byte(v>>16), byte(v>>8), byte(v))
 	}
 }
+
+// ---------------------------------------------------------------------------
+// raw-peer exchanges (used by C34 and C35)
+// ---------------------------------------------------------------------------
+
+type vpReadResult struct {
+	data  []byte
+	err   error
+	calls int
+}
+
+func vpReadBody(r io.Reader, sizes []int) (res vpReadResult) {
+	buf := make([]byte, 8192)
+	zero := 0
+	for i := 0; i < 200000; i++ {
+		n := len(buf)
+		if len(sizes) > 0 {
+			n = sizes[i%len(sizes)]
+			if n > len(buf) {
+				n = len(buf)
+			}
+		}
+		m, err := r.Read(buf[:n])
+		res.calls++
+		if m < 0 || m > n {
+			res.err = fmt.Errorf("harness: Read returned n=%d for a %d-octet buffer", m, n)
+			return res
+		}
+		res.data = append(res.data, buf[:m]...)
+		if err != nil {
+			res.err = err
+			return res
+		}
+		if m == 0 {
+			if zero++; zero > 64 {
+				res.err = fmt.Errorf("harness: Read returned (0, nil) 64 times in a row")
+				return res
+			}
+		} else {
+			zero = 0
+		}
+	}
+	res.err = fmt.Errorf("harness: body did not end after 200000 reads")
+	return res
+}
+
+func vpWriteChunks(st *stream, wire []byte, chunks []int) {
+	for i := 0; len(wire) > 0; i++ {
+		n := len(wire)
+		if len(chunks) > 0 {
+			if i >= len(chunks) {
+				// the rest in one write
+			} else if chunks[i] < n {
+				n = chunks[i]
+			}
+		}
+		st.Write(wire[:n])
+		st.Flush()
+		wire = wire[n:]
+		synctest.Wait()
+	}
+}
+
+func vpAlive(qc *quic.Conn) (bool, error) {
+	err := qc.Wait(canceledCtx)
+	return errors.Is(err, context.Canceled), err
+}
+
+// vpServer is a real server with a handler that reads the request body as told.
+type vpServer struct {
+	ts    *testServer
+	sizes []int
+	res   *vpReadResult
+	calls int
+}
+
+func vpNewServer(t *testing.T) *vpServer {
+	s := &vpServer{}
+	s.ts = newTestServer(t, http.HandlerFunc(func(w http.ResponseWriter, r *http.Request) {
+		s.calls++
+		res := vpReadBody(r.Body, s.sizes)
+		s.res = &res
+		w.WriteHeader(200)
+	}))
+	return s
+}
+
+// request sends one request (first HEADERS frame with the field section sec, then wire,
+// then FIN) and returns what the handler's body reads produced.
+func (s *vpServer) request(tc *testServerConn, sec, wire []byte, chunks, sizes []int) (*vpReadResult, error) {
+	s.sizes, s.res = sizes, nil
+	before := s.calls
+	rs := tc.newStream(streamTypeRequest)
+	var hdr []byte
+	hdr = vpVarint(hdr, 1, 0)
+	hdr = vpVarint(hdr, uint64(len(sec)), 0)
+	hdr = append(hdr, sec...)
+	rs.Write(hdr)
+	if chunks != nil {
+		rs.stream.Flush()
+		synctest.Wait()
+	}
+	vpWriteChunks(rs.stream, wire, chunks)
+	rs.stream.stream.CloseWrite()
+	synctest.Wait()
+	res := s.res
+	rs.stream.stream.CloseRead()
+	synctest.Wait()
+	if s.calls == before {
+		return nil, nil
+	}
+	if res == nil {
+		return nil, fmt.Errorf("the handler's body read is still blocked after the request stream was closed")
+	}
+	return res, nil
+}
+
+// vpRequestSection is the field section of a POST request with the extra fields h.
+func vpRequestSection(t testing.TB, h http.Header) []byte {
+	hh := http.Header{":method": {"POST"}, ":scheme": {"https"}, ":path": {"/"}, ":authority": {"example.tld"}}
+	for k, v := range h {
+		hh[k] = v
+	}
+	return (&testQUICStream{t: t}).encodeHeaders(hh)
+}
+
+// vpClientExchange makes the real client send a GET and answers it with pre,
+// a HEADERS frame (:status 200), wire and FIN; it returns what reading the response
+// body produced.
+func vpClientExchange(tc *testClientConn, rh http.Header, pre, wire []byte, chunks, sizes []int) (*vpReadResult, error) {
+	req, _ := http.NewRequest("GET", "https://example.tld/", nil)
+	rt := tc.roundTrip(req)
+	synctest.Wait()
+	if len(tc.streams[streamTypeRequest]) == 0 {
+		if rt.done() {
+			return nil, fmt.Errorf("RoundTrip failed before sending a request: %v", rt.respErr)
+		}
+		return nil, fmt.Errorf("the client did not open a request stream")
+	}
+	st := tc.wantStream(streamTypeRequest)
+	hh := http.Header{":status": {"200"}}
+	for k, v := range rh {
+		hh[k] = v
+	}
+	sec := st.encodeHeaders(hh)
+	hdr := bytes.Clone(pre)
+	hdr = vpVarint(hdr, 1, 0)
+	hdr = vpVarint(hdr, uint64(len(sec)), 0)
+	hdr = append(hdr, sec...)
+	st.Write(hdr)
+	if chunks != nil {
+		st.stream.Flush()
+		synctest.Wait()
+	}
+	vpWriteChunks(st.stream, wire, chunks)
+	st.stream.stream.CloseWrite()
+	synctest.Wait()
+	if !rt.done() {
+		return nil, fmt.Errorf("RoundTrip has not returned although the response HEADERS and the end of the stream were sent")
+	}
+	if rt.respErr != nil {
+		return nil, fmt.Errorf("RoundTrip failed on a well-formed response HEADERS frame (after %d unknown-type frames): %v", len(pre), rt.respErr)
+	}
+	var res *vpReadResult
+	var perr error
+	go func() {
+		defer func() {
+			if p := recover(); p != nil {
+				perr = fmt.Errorf("panic while reading or closing the response body: %v", p)
+			}
+		}()
+		r := vpReadBody(rt.resp.Body, sizes)
+		rt.resp.Body.Close()
+		res = &r
+	}()
+	synctest.Wait()
+	st.stream.stream.CloseRead()
+	synctest.Wait()
+	if perr != nil {
+		return nil, perr
+	}
+	if res == nil {
+		return nil, fmt.Errorf("the response body read is still blocked after the response stream was closed")
+	}
+	return res, nil
+}
+
